@@ -22,6 +22,7 @@ import (
 
 	hclog "github.com/hashicorp/go-hclog"
 	"github.com/hashicorp/go-plugin/internal/grpcmux"
+	"github.com/hashicorp/go-plugin/verifhook"
 	"google.golang.org/grpc"
 )
 
@@ -266,6 +267,7 @@ func Serve(opts *ServeConfig) {
 		}
 	}
 
+	verifhook.Point("serve.begin")
 	// negotiate the version and plugins
 	// start with default version in the handshake config
 	protoVersion, protoType, pluginSet := protocolVersion(opts)
@@ -287,6 +289,7 @@ func Serve(opts *ServeConfig) {
 		return
 	}
 
+	verifhook.Point("serve.listener")
 	// Close the listener on return. We wrap this in a func() on purpose
 	// because the "listener" reference may change to TLS.
 	defer func() {
@@ -444,6 +447,7 @@ func Serve(opts *ServeConfig) {
 		}
 		fmt.Printf("%s\n", protocolLine)
 		os.Stdout.Sync()
+		verifhook.Point("serve.handshake.printed")
 	} else if ch := opts.Test.ReattachConfigCh; ch != nil {
 		// Send back the reattach config that can be used. This isn't
 		// quite ready if they connect immediately but the client should
@@ -493,8 +497,10 @@ func Serve(opts *ServeConfig) {
 		os.Stderr = stderr_w
 	}
 
+	verifhook.Point("serve.stdio.swapped")
 	// Accept connections and wait for completion
 	go server.Serve(listener)
+	verifhook.Point("serve.serving")
 
 	ctx := context.Background()
 	if opts.Test != nil && opts.Test.Context != nil {
